@@ -64,7 +64,10 @@ def build_driver():
 def get_facts(repo='/repo', cfg='A', verbose=False):
     """returns (fact_dir, info) ; raises ExtractError if the configuration does not build"""
     os.makedirs(CACHE, exist_ok=True)
-    lock = open(os.path.join(CACHE, 'extract.lock'), 'w')
+    # DESFACTS_SLOT (development only: tools/regress.py --jobs) selects a private lock + cargo target directory, so that several
+    # scratch trees can be extracted in parallel; callers must not request the same tree from two slots at once
+    sfx = ('-s' + os.environ['DESFACTS_SLOT']) if os.environ.get('DESFACTS_SLOT') else ''
+    lock = open(os.path.join(CACHE, 'extract.lock' + sfx), 'w')
     fcntl.flock(lock, fcntl.LOCK_EX)
     try:
         build_driver()
@@ -82,7 +85,7 @@ def get_facts(repo='/repo', cfg='A', verbose=False):
             raise ExtractError(open(failed).read())
         shutil.rmtree(out, ignore_errors=True)
         os.makedirs(out)
-        target = os.path.join(CACHE, 'target-' + cfg)
+        target = os.path.join(CACHE, 'target-' + cfg + sfx)
         # cargo's freshness cache would skip the wrapper for unchanged members: drop their fingerprints
         fp = os.path.join(target, 'debug', '.fingerprint')
         if os.path.isdir(fp):
